@@ -403,6 +403,15 @@ Proof.
         unfold failo_of. rewrite fail_pe by exact K. unfold good. simpl. rewrite K. reflexivity.
       * injection H1 as <-. reflexivity.
       * injection H1 as <-. reflexivity.
+    + (* ELookahead *)
+      destruct (IH c Hc L false) as [H1 _]. unfold good in H1.
+      destruct (pparse f (mkargs c s L false true)) as [[l r|x|]|]; simpl in H1.
+      * injection H1 as <-. unfold step_k. rewrite finish_plain by exact He'. reflexivity.
+      * destruct (is_pe (xk x)) eqn:K; [|discriminate]. injection H1 as <-.
+        rewrite (is_pe_not_fatal _ K). cbn [andb].
+        unfold failo_of. rewrite fail_pe by exact K. unfold good. simpl. rewrite K. reflexivity.
+      * injection H1 as <-. reflexivity.
+      * injection H1 as <-. reflexivity.
   - (* repetition *)
     destruct ne as [ne|]; [discriminate He|].
     pose proof He as He'. simpl in He. apply andb_prop in He as [He Hb].
